@@ -27,6 +27,8 @@ type c01Op struct {
 	Empty bool   `json:"empty,omitempty"`
 	Exp   bool   `json:"exp,omitempty"`   // retained message already expired
 	Share bool   `json:"share,omitempty"` // provider "broker", v5 sessions: the filter goes on the wire as $share/g<s>/<filter>
+	// provider "broker", unsub: the UNSUBSCRIBE names a filter the session never held FIRST, then this one
+	Pre bool `json:"pre,omitempty"`
 }
 
 type c01Case struct {
@@ -136,7 +138,7 @@ func (p *c01Prop) Gen(r *Rng, i int, tier string) interface{} {
 		case x < 25:
 			c.Ops = append(c.Ops, c01Op{Op: "sub", F: pickF(), S: 1 + r.Intn(3), QoS: r.Intn(3), RH: r.Intn(3)})
 		case x < 40:
-			c.Ops = append(c.Ops, c01Op{Op: "unsub", F: pickF(), S: 1 + r.Intn(3)})
+			c.Ops = append(c.Ops, c01Op{Op: "unsub", F: pickF(), S: 1 + r.Intn(3), Pre: broker && r.Chance(30)})
 		case x < 60:
 			tag++
 			op := c01Op{Op: "ret", F: pickT(), Tag: tag, QoS: r.Intn(3)}
